@@ -42,7 +42,7 @@ def _linear(seqs, bound, menu=MENU, **kw):
 
 
 SPECS = {
-    "quick": _linear(generated.sequences(2), 1) + _linear(HAND, 1) + [spec(k, MENU, bound=1) for k in ("tworuns", "nested", "scan2")],
+    "quick": _linear(generated.sequences(2), 1) + _linear(HAND, 1) + [spec(k, MENU, bound=1) for k in ("tworuns", "nested", "scan2")] + [spec("tiny", MENU, bound=2)],
     "thorough": _linear(generated.sequences(3), 1)
     + _linear([s for s in generated.sequences(4, _small) if len(s) == 4], 1, menu=[("pause",), ("suspend", "both")])
     + _linear(HAND, 2)
